@@ -1859,8 +1859,10 @@ class VM:
             if isinstance(source, (JSArray, JSTypedArray)):
                 if offset < 0 or offset + source.length > arr.length:
                     raise JSRangeError("offset is out of bounds")
-                for i in range(source.length):
-                    arr.set_index(offset + i, source.get_index(i))
+                # (read everything first: the source may be a view of the same buffer)
+                values = [source.get_index(i) for i in range(source.length)]
+                for i, value in enumerate(values):
+                    arr.set_index(offset + i, value)
             return UNDEFINED
 
         methods = {
